@@ -38,7 +38,7 @@ Inductive conn_result := Rejected (ps : list problem) | RejectedWeakRoot | Crash
 
 Definition connect_one (gt : gtab) (sg dg : nat) (f : cflags) : conn_result :=
   match problems f with
-  | _ :: _ as ps => Rejected ps
+  | (_ :: _) as ps => Rejected ps
   | [] =>
     match connect_interval gt sg dg (shifted f) (if weak f then 1 else 0)%Z with
     | CErr CScenarioError => RejectedWeakRoot
